@@ -112,6 +112,13 @@ func runSysPlug(x *X) {
 	}
 	if wantGzip {
 		parts = append(parts, gzipCfg)
+		if c.Intn(8, "two-gzip-entries") == 0 {
+			// the plugin listed twice (same eligibility rules, another level): whatever the inner one
+			// produced is "already encoded" for the outer one -- the client still decodes once
+			l2 := -1 + c.Intn(11, "level-2")
+			parts = append(parts, config.PluginConfig{Name: "gzip", Config: map[string]interface{}{"level": float64(l2), "min_size": float64(minSize), "content_types": cts}})
+			x.Probe("two-gzip-entries-in-chain")
+		}
 	}
 	if c.Intn(2, "p-logging") == 1 {
 		parts = append(parts, config.PluginConfig{Name: "logging"})
